@@ -51,10 +51,16 @@ mut "Ready not cleared on an error return (the code before its repair)" 's/(N.ld
 mut "bind: stanza error of the callback answered and the session reported ready (before its repair)" 's/| VBind e => match e with BOk => false | _ => true end/| VBind e => match e with BErr => true | _ => false end/'
 mut "ctx_done off by one (<=?)" 's/Some c => c <? w_ops w/Some c => c <=? w_ops w/'
 mut "Expect without its ctx test" '/^Fixpoint expect/,/^  end\./ s/      ctx ;;;/      Ret tt ;;;/'
-mut "Ready granted although the list has a required feature" 's/| RSNone => if fl_req l then o else/| RSNone => if false then o else/'
+mut "Ready granted although the list has a required feature" 's/| RSNone => if ready || negb (fl_req l) then/| RSNone => if true then/'
+mut "Ready bit reported by a voluntary feature forgotten at the end of the list" 's/| RSNone => if ready || negb (fl_req l) then/| RSNone => if negb (fl_req l) then/'
+mut "Ready bit of a feature applied at once (features.go before 7abe030)" 's/  or_bits (N.ldiff (fst o) st_Ready) ;;;/  or_bits (fst o) ;;;/'
+mut "features whose prerequisites do not hold are not cached (features.go before ca01fdb)" "s/(cache_add f req' (fl_cache acc1)))/(if allowed ft bits then cache_add f req' (fl_cache acc1) else fl_cache acc1))/"
+mut "error of a custom List step swallowed (seeded change m8)" 's/  | VList _ e => e/  | VList _ e => false/'
+mut "error of a custom Parse step swallowed" 's/  | VParse _ e => e/  | VParse _ e => false/'
+mut "deadline not kept expired after the cancellation (session.go before e0a2b45)" 's/| Some c => p_deadline pl \&\& ((c <? i) || ((i =? c) \&\& p_entry pl))/| Some c => p_deadline pl \&\& ((i =? c) \&\& p_entry pl)/'
 mut "restart keeps the tokens buffered by the old decoder" 's/| RSSame => mkW (w_ops w) (drop_to_brk (w_script w))/| RSSame => mkW (w_ops w) (w_script w)/'
 mut "List error without the deferred partial flush" 's/if f_lerr f then wru WPartial ;;; Fail/if f_lerr f then Fail/'
-mut "mask of a feature applied only by the session loop (not in negotiateFeatures)" 's/  or_bits (fst o) ;;;\n  Ret o\./XX/; /^Definition run_feature/,/^  Ret o\./ s/  or_bits (fst o) ;;;/  Ret tt ;;;/'
+mut "mask of a feature applied only by the session loop (not in negotiateFeatures)" 's/  or_bits (N.ldiff (fst o) st_Ready) ;;;/  Ret tt ;;;/'
 mut "voluntary feature ends the selection loop" 's/| RSNone => if req then Ret (after_loop l o) else init_loop/| RSNone => if true then Ret (after_loop l o) else init_loop/'
 mut "component: <handshake/> accepted without reading its end" 's/| Open KHandshake => guard id ;;; skip n 0 ;;;/| Open KHandshake => guard id ;;;/'
 mut "bind result accepted without reading the whole element" 's/| Open (KIq ok) => skip n 0 ;;; guard ok ;;; Ret (st_Ready, RSNone)/| Open (KIq ok) => guard ok ;;; Ret (st_Ready, RSNone)/'
